@@ -46,14 +46,22 @@ def seed():
 
 
 def workdir(name):
-    d = os.path.join(WORK, name)
+    """scratch directory of this invocation (the process id keeps two concurrent runs of one check apart)"""
+    d = os.path.join(WORK, "%s.%d" % (name, os.getpid()))
     shutil.rmtree(d, ignore_errors=True)
     os.makedirs(d)
+    for other in os.listdir(WORK):          # leftovers of killed runs of the same check
+        stem, _, pid = other.rpartition(".")
+        if stem == name and pid.isdigit() and int(pid) != os.getpid():
+            try:
+                os.kill(int(pid), 0)
+            except OSError:
+                shutil.rmtree(os.path.join(WORK, other), ignore_errors=True)
     return d
 
 
 def rmwork(name):
-    shutil.rmtree(os.path.join(WORK, name), ignore_errors=True)
+    shutil.rmtree(os.path.join(WORK, "%s.%d" % (name, os.getpid())), ignore_errors=True)
 
 
 # ---------------------------------------------------------------------------------------------- TLC
